@@ -3,7 +3,7 @@
 import json, os, shutil, sys
 src, k, prop, caught = sys.argv[1:5]
 note = sys.argv[5] if len(sys.argv) > 5 else ""
-dst = f"/verif/seeded/{prop}-{k}"
+dst = f"/verif/seeded/{prop}-{os.environ.get('SEED_AS', k)}"
 os.makedirs(dst, exist_ok=True)
 shutil.copy(f"{src}/patch{k}.diff", f"{dst}/patch.diff")
 shutil.copy(f"{src}/demo{k}.py", f"{dst}/demo.py")
